@@ -2,8 +2,10 @@ mod apgen;
 mod c01;
 mod c03;
 mod c05;
+mod c10;
 mod c16;
 mod c17;
+mod c18;
 mod causes;
 mod inst;
 mod model;
@@ -12,6 +14,7 @@ mod relrun;
 mod sqlite;
 mod engine;
 mod iso;
+mod jsonutil;
 mod report;
 
 use report::Tier;
@@ -39,6 +42,8 @@ fn main() {
         let v: serde_json::Value = serde_json::from_str(&txt).expect("replay file is JSON");
         let code = match v["property"].as_str().unwrap_or("") {
             "C17" => c17::replay(&v),
+            "C10" => c10::replay(&v),
+            "C18" => c18::replay(&v),
             "C16" => c16::replay(&v),
             p => {
                 eprintln!("no replay for property {p:?}");
@@ -85,8 +90,10 @@ fn main() {
         "C01" => c01::run(tier),
         "C03" => c03::run(tier),
         "C05" => c05::run(tier),
+        "C10" => c10::run(tier),
         "C16" => c16::run(tier),
         "C17" => c17::run(tier),
+        "C18" => c18::run(tier),
         _ => {
             eprintln!("unknown property {id}");
             2
